@@ -161,7 +161,7 @@ package keeper
 //@   ensures err == nil ==> NextL1Sequences == old(NextL1Sequences) && NextOutputIndexes == old(NextOutputIndexes) && OutputProposals == old(OutputProposals)
 //@        && ProvenWithdrawals == old(ProvenWithdrawals) && TokenPairs == old(TokenPairs)        // C01,C10: nothing_prerecorded
 //@   ensures $hookFailed ==> err != nil                                                           // C19: hook_failure_fails_creation
-//@   ensures err == nil ==> $hookCalls == 1 && $hookName == "BridgeCreated" && $hookBridge == id && $hookCfg == req.Config        // C19: hook_sees_new_bridge
+//@   ensures err == nil ==> $hookCalls == 1 && $hookOuter && $hookName == "BridgeCreated" && $hookBridge == id && $hookCfg == req.Config        // C19: hook_sees_new_bridge
 //@   assigns BridgeConfigs[id], BatchInfos[(id, *)], NextBridgeId, bank.bal, auth.acc, perm.admin, events
 
 //@ func (MsgServer) UpdateProposer
@@ -172,6 +172,7 @@ package keeper
 //@   ensures err == nil ==> val(BridgeConfigs[b]).FinalizationPeriod == cfg.FinalizationPeriod && val(BridgeConfigs[b]).Challenger == cfg.Challenger   // C05: period_unchanged
 //@   ensures old(BridgeConfigs)[b] != None && (req.Authority == ms.authority || req.Authority == cfg.Proposer) && addrOK(1, req.Authority) && addrOK(1, req.NewProposer) && b != 0 && !$hookFailed
 //@        && addrOK(1, cfg.Challenger) && addrOK(1, cfg.Proposer) && cfg.BatchInfo.ChainType != 0 && len(cfg.BatchInfo.Submitter) > 0 && cfg.FinalizationPeriod > 0 && cfg.SubmissionInterval != 0 && cfg.SubmissionStartHeight != 0 ==> err == nil   // C12: entitled_signer_is_never_rejected (INV_CFG: stored configs passed Validate)
+//@   ensures err == nil ==> val(BridgeConfigs[b]).Challenger == cfg.Challenger && val(BridgeConfigs[b]).BatchInfo == cfg.BatchInfo && val(BridgeConfigs[b]).SubmissionInterval == cfg.SubmissionInterval && val(BridgeConfigs[b]).FinalizationPeriod == cfg.FinalizationPeriod && val(BridgeConfigs[b]).SubmissionStartHeight == cfg.SubmissionStartHeight && val(BridgeConfigs[b]).OracleEnabled == cfg.OracleEnabled && val(BridgeConfigs[b]).Metadata == cfg.Metadata   // C12,C19,C05: only_the_proposer_field_changes
 //@   assigns BridgeConfigs[b], perm.admin, events
 
 //@ func (MsgServer) UpdateChallenger
@@ -181,9 +182,10 @@ package keeper
 //@   ensures err == nil ==> BridgeConfigs[b] != None && val(BridgeConfigs[b]).Challenger == req.Challenger                        // C12: takes_effect
 //@   ensures err == nil ==> val(BridgeConfigs[b]).FinalizationPeriod == cfg.FinalizationPeriod && val(BridgeConfigs[b]).Proposer == cfg.Proposer      // C05: period_unchanged
 //@   ensures $hookFailed ==> err != nil                                                           // C19: hook_failure_fails_update
-//@   ensures err == nil ==> $hookCalls == 1 && $hookName == "BridgeChallengerUpdated" && $hookBridge == b && $hookCfg == val(BridgeConfigs[b]) && $hookCfg.Challenger == req.Challenger && $hookCfg.Metadata == cfg.Metadata   // C19: hook_sees_new_challenger
+//@   ensures err == nil ==> $hookCalls == 1 && $hookOuter && $hookName == "BridgeChallengerUpdated" && $hookBridge == b && $hookCfg == val(BridgeConfigs[b]) && $hookCfg.Challenger == req.Challenger && $hookCfg.Metadata == cfg.Metadata   // C19: hook_sees_new_challenger
 //@   ensures old(BridgeConfigs)[b] != None && (req.Authority == ms.authority || req.Authority == cfg.Challenger) && addrOK(1, req.Authority) && addrOK(1, req.Challenger) && b != 0 && !$hookFailed
 //@        && addrOK(1, cfg.Challenger) && addrOK(1, cfg.Proposer) && cfg.BatchInfo.ChainType != 0 && len(cfg.BatchInfo.Submitter) > 0 && cfg.FinalizationPeriod > 0 && cfg.SubmissionInterval != 0 && cfg.SubmissionStartHeight != 0 ==> err == nil   // C12: entitled_signer_is_never_rejected (INV_CFG: stored configs passed Validate)
+//@   ensures err == nil ==> val(BridgeConfigs[b]).Proposer == cfg.Proposer && val(BridgeConfigs[b]).BatchInfo == cfg.BatchInfo && val(BridgeConfigs[b]).SubmissionInterval == cfg.SubmissionInterval && val(BridgeConfigs[b]).FinalizationPeriod == cfg.FinalizationPeriod && val(BridgeConfigs[b]).SubmissionStartHeight == cfg.SubmissionStartHeight && val(BridgeConfigs[b]).OracleEnabled == cfg.OracleEnabled && val(BridgeConfigs[b]).Metadata == cfg.Metadata   // C12,C19,C05: only_the_challenger_field_changes
 //@   assigns BridgeConfigs[b], perm.admin, events
 
 //@ func (MsgServer) UpdateBatchInfo
@@ -193,6 +195,7 @@ package keeper
 //@   ensures err == nil ==> val(BridgeConfigs[b]).FinalizationPeriod == cfg.FinalizationPeriod && val(BridgeConfigs[b]).Proposer == cfg.Proposer && val(BridgeConfigs[b]).Challenger == cfg.Challenger   // C05,C12: roles_and_period_unchanged
 //@   ensures old(BridgeConfigs)[b] != None && (req.Authority == ms.authority || req.Authority == cfg.Proposer) && addrOK(1, req.Authority) && b != 0 && req.NewBatchInfo.ChainType != 0 && len(req.NewBatchInfo.Submitter) > 0 && !$hookFailed
 //@        && addrOK(1, cfg.Challenger) && addrOK(1, cfg.Proposer) && cfg.BatchInfo.ChainType != 0 && len(cfg.BatchInfo.Submitter) > 0 && cfg.FinalizationPeriod > 0 && cfg.SubmissionInterval != 0 && cfg.SubmissionStartHeight != 0 ==> err == nil   // C12: entitled_signer_is_never_rejected (INV_CFG)
+//@   ensures err == nil ==> val(BridgeConfigs[b]).Challenger == cfg.Challenger && val(BridgeConfigs[b]).Proposer == cfg.Proposer && val(BridgeConfigs[b]).SubmissionInterval == cfg.SubmissionInterval && val(BridgeConfigs[b]).FinalizationPeriod == cfg.FinalizationPeriod && val(BridgeConfigs[b]).SubmissionStartHeight == cfg.SubmissionStartHeight && val(BridgeConfigs[b]).OracleEnabled == cfg.OracleEnabled && val(BridgeConfigs[b]).Metadata == cfg.Metadata   // C12,C19,C05: only_the_batch_info_changes
 //@   assigns BridgeConfigs[b], BatchInfos[(b, *)], perm.admin, events
 
 //@ func (MsgServer) UpdateOracleConfig
@@ -203,17 +206,19 @@ package keeper
 //@   ensures err == nil ==> val(BridgeConfigs[b]).OracleEnabled == req.OracleEnabled
 //@   ensures old(BridgeConfigs)[b] != None && (req.Authority == ms.authority || req.Authority == cfg.Proposer) && addrOK(1, req.Authority) && b != 0
 //@        && addrOK(1, cfg.Challenger) && addrOK(1, cfg.Proposer) && cfg.BatchInfo.ChainType != 0 && len(cfg.BatchInfo.Submitter) > 0 && cfg.FinalizationPeriod > 0 && cfg.SubmissionInterval != 0 && cfg.SubmissionStartHeight != 0 ==> err == nil   // C12: entitled_signer_is_never_rejected (INV_CFG)
+//@   ensures err == nil ==> val(BridgeConfigs[b]).Challenger == cfg.Challenger && val(BridgeConfigs[b]).Proposer == cfg.Proposer && val(BridgeConfigs[b]).BatchInfo == cfg.BatchInfo && val(BridgeConfigs[b]).SubmissionInterval == cfg.SubmissionInterval && val(BridgeConfigs[b]).FinalizationPeriod == cfg.FinalizationPeriod && val(BridgeConfigs[b]).SubmissionStartHeight == cfg.SubmissionStartHeight && val(BridgeConfigs[b]).Metadata == cfg.Metadata   // C12,C19,C05: only_the_oracle_flag_changes
 //@   assigns BridgeConfigs[b], events
 
 //@ func (MsgServer) UpdateMetadata
 //@   let b := req.BridgeId
 //@   let cfg := val(BridgeConfigs[b])
 //@   ensures $hookFailed ==> err != nil                                                           // C19: hook_failure_fails_update
-//@   ensures err == nil ==> $hookCalls == 1 && $hookName == "BridgeMetadataUpdated" && $hookBridge == b && $hookCfg == val(BridgeConfigs[b]) && $hookCfg.Metadata == req.Metadata && $hookCfg.Challenger == cfg.Challenger   // C19: hook_sees_new_metadata
+//@   ensures err == nil ==> $hookCalls == 1 && $hookOuter && $hookName == "BridgeMetadataUpdated" && $hookBridge == b && $hookCfg == val(BridgeConfigs[b]) && $hookCfg.Metadata == req.Metadata && $hookCfg.Challenger == cfg.Challenger   // C19: hook_sees_new_metadata
 //@   ensures err == nil ==> old(BridgeConfigs)[b] != None && (req.Authority == ms.authority || req.Authority == cfg.Proposer)    // C12: gov_or_proposer
 //@   ensures err == nil ==> val(BridgeConfigs[b]).FinalizationPeriod == cfg.FinalizationPeriod && val(BridgeConfigs[b]).Proposer == cfg.Proposer && val(BridgeConfigs[b]).Challenger == cfg.Challenger   // C05,C12: roles_and_period_unchanged
 //@   ensures old(BridgeConfigs)[b] != None && (req.Authority == ms.authority || req.Authority == cfg.Proposer) && addrOK(1, req.Authority) && b != 0 && len(req.Metadata) <= 5120 && !$hookFailed
 //@        && addrOK(1, cfg.Challenger) && addrOK(1, cfg.Proposer) && cfg.BatchInfo.ChainType != 0 && len(cfg.BatchInfo.Submitter) > 0 && cfg.FinalizationPeriod > 0 && cfg.SubmissionInterval != 0 && cfg.SubmissionStartHeight != 0 ==> err == nil   // C12: entitled_signer_is_never_rejected (INV_CFG)
+//@   ensures err == nil ==> val(BridgeConfigs[b]).Challenger == cfg.Challenger && val(BridgeConfigs[b]).Proposer == cfg.Proposer && val(BridgeConfigs[b]).BatchInfo == cfg.BatchInfo && val(BridgeConfigs[b]).SubmissionInterval == cfg.SubmissionInterval && val(BridgeConfigs[b]).FinalizationPeriod == cfg.FinalizationPeriod && val(BridgeConfigs[b]).SubmissionStartHeight == cfg.SubmissionStartHeight && val(BridgeConfigs[b]).OracleEnabled == cfg.OracleEnabled   // C12,C19,C05: only_the_metadata_changes
 //@   assigns BridgeConfigs[b], perm.admin, events
 
 //@ func (MsgServer) UpdateParams
